@@ -13,6 +13,7 @@ class FactorGraph():
         self.total = total
         self.convex = convex
         self.iters = iters
+        self.damping = 0.5 # adjusted by LocalInference for every marginal oracle; message passing here is undamped
 
         if convex:
             self.counting_numbers = self.get_counting_numbers()
